@@ -34,7 +34,9 @@ Definition room_code (x : sid) (r : room) : N :=
 Definition subset (a b : list N) : bool := forallb (fun x => mem N.eqb x b) a.
 Definition same_set (a b : list N) : bool := subset a b && subset b a.
 
-Definition named_candidates (k : nat) : list N := map N.of_nat (seq 0 (S k)).
+Definition named_candidates (k : nat) : list N :=
+  map N.of_nat (seq 0 (S k)) ++ map (fun i => (100 + N.of_nat i)%N) (seq 0 k)
+  ++ map (fun i => (200 + N.of_nat i)%N) (seq 0 k).
 
 Definition view_of (k : nat) (s : server) (x : sid) : view :=
   (listed s x, reach_all s x, is_connected s x,
@@ -49,6 +51,9 @@ Definition view_eqb (a b : view) : bool :=
   Bool.eqb l1 l2 && Bool.eqb f1 f2 && Bool.eqb c1 c2 && Bool.eqb h1 h2 && same_set r1 r2
   && Bool.eqb ra1 ra2 && Bool.eqb ro1 ro2 && same_set v1 v2.
 
+(** join codes 4 and 5: the middleware starts `go socket.Join(room)`: 4 = room "slow_i", whose AddAll
+    the rig's adapter holds up (the Join is in progress while the chain goes on); 5 = room "late_i",
+    a Join that is only started after the client got its answer. *)
 Definition mk_mwb (i : nat) (jv : N * N) : mwb :=
   let '(j, v) := jv in
   let ri := N.of_nat (S i) in             (* named room of middleware i; named room 0 = "shared" *)
@@ -59,7 +64,8 @@ Definition mk_mwb (i : nat) (jv : N * N) : mwb :=
          | 2 => Reject (RStr [ni; 2])
          | 3 => Reject (RData (ni * 10 + 3))
          | _ => Accept
-         end)%N.
+         end)%N
+        (match j with 4 => [[100 + ni]] | 5 => [[200 + ni]] | _ => [] end)%N.
 
 Fixpoint mk_chain (i : nat) (l : list (N * N)) : list mwb :=
   match l with [] => [] | jv :: l' => mk_mwb i jv :: mk_chain (S i) l' end.
@@ -67,44 +73,75 @@ Fixpoint mk_chain (i : nat) (l : list (N * N)) : list mwb :=
 (** Other sockets already went through the namespace: one admitted (in room "shared"), one refused
     after joining rooms.  The case's socket is thread 0 of a fresh run on top of that state. *)
 Definition background : server :=
-  let t1 := new_adm 100%N 50%N [mkMwb [[0; 7]]%N Accept] in
-  let t2 := new_adm 101%N 51%N [mkMwb [[0; 8]]%N Accept; mkMwb [[9]]%N (Reject (RStr [1]%N))] in
+  let t1 := new_adm 100%N 50%N [mkMwb [[0; 7]]%N Accept []] in
+  let t2 := new_adm 101%N 51%N [mkMwb [[0; 8]]%N Accept []; mkMwb [[9]]%N (Reject (RStr [1]%N)) []] in
   fst (run (solo_sched 2) (fst (run (solo_sched 1) (server0, [t1])), [t2])).
 
 Definition case_sid : sid := 7%N.
 
-(** Drive the case's thread alone; record the view at every middleware entry. *)
+(** Drive the case's thread the way the rig forces it: the admission runs; right after a middleware
+    ran, the Join goroutines it started on "slow" rooms enter Join (they now hold joinMu, their
+    AddAll is held up by the rig's adapter); when the admission cannot move (it waits for joinMu)
+    or is over, the held Join completes.  "late" Joins run after the handlers.  The view is recorded
+    at every middleware entry. *)
+Definition is_late (j : jthread) : bool := existsb (fun r => (200 <=? r)%N) (fst j).
+
+Definition step_joins (sel : jthread -> bool) (t : adm) (s : server) : adm * server :=
+  fold_left (fun ts j => match nth_error (t_js (fst ts)) j with
+                         | Some jt => if sel jt then step_join j (fst ts) (snd ts) else ts
+                         | None => ts
+                         end)
+            (seq 0 (length (t_js t))) (t, s).
+
+Definition pc_code (p : pc) : N :=
+  match p with
+  | PMw i => N.of_nat i | PDisable _ => 1001 | PLeave _ => 1002 | PSendError _ => 1003
+  | PRejected _ => 1004 | PStore => 1005 | PConnTables => 1006 | PJoinOwn => 1007
+  | PSendConnect => 1008 | PSetConnected => 1009 | PSpawn => 1010 | PAdmitted => 1011
+  end%N.
+
 Fixpoint sim (fuel : nat) (k : nat) (t : adm) (s : server) (acc : list (N * view))
   : adm * server * list (N * view) :=
   match fuel with
   | O => (t, s, acc)
   | S f =>
+      (* the middleware is entered (and takes its view) even if its own Join then waits for joinMu *)
       let acc' := match t_pc t with
                   | PMw i => match nth_error (t_chain t) i with
-                             | Some _ => acc ++ [(N.of_nat i, view_of k s (t_sid t))]
+                             | Some _ => if mem N.eqb (N.of_nat i) (map fst acc) then acc
+                                         else acc ++ [(N.of_nat i, view_of k s (t_sid t))]
                              | None => acc
                              end
                   | _ => acc
                   end in
-      let '(t', s') := step_main t s in
-      sim f k t' s' acc'
+      let '(t1, s1) := step_main t s in
+      if N.eqb (pc_code (t_pc t1)) (pc_code (t_pc t)) then
+        (* blocked on joinMu, or over: let the held Join finish *)
+        if held t then let '(t2, s2) := step_joins is_hold t s in sim f k t2 s2 acc'
+        else (t, s, acc')
+      else
+        let '(t2, s2) := step_joins (fun j => negb (is_late j) && negb (is_hold j)) t1 s1 in
+        sim f k t2 s2 acc'
   end.
 
 Definition predict (chain : list (N * N))
   : list (N * view) * list view * N * (N * N * N) * view :=
   let k := length chain in
   let t0 := new_adm case_sid 9%N (mk_chain 0 chain) in
-  let '(t1, s1, calls) := sim (k + 9) k t0 background [] in
+  let '(t1, s1, calls) := sim (3 * k + 12) k t0 background [] in
   let hviews := match t_h t1 with HPending => [view_of k s1 case_sid] | _ => [] end in
   let '(t2, s2) := step_h t1 s1 in
+  (* the late Joins: enter, then AddAll *)
+  let '(t3, s3) := step_joins (fun _ => true) t2 s2 in
+  let '(t4, s4) := step_joins (fun _ => true) t3 s3 in
   let '(resp, m) :=
-    match packets case_sid (trace s2) with
+    match packets case_sid (trace s4) with
     | [PktConnect x] => (if N.eqb x case_sid then 0 else 2, (0, 0, 0))
     | [PktConnectError (MText [i; c])] => (1, (1, i, c))
     | [PktConnectError (MData d)] => (1, (2, d / 10, d mod 10))
     | _ => (2, (0, 0, 0))
     end%N in
-  (calls, hviews, resp, m, view_of k s2 case_sid).
+  (calls, hviews, resp, m, view_of k s4 case_sid).
 
 Definition calls_eqb (a b : list (N * view)) : bool :=
   list_eqb (fun x y => N.eqb (fst x) (fst y) && view_eqb (snd x) (snd y)) a b.
@@ -292,9 +329,9 @@ Definition wpredict (ca cb : list (N * N)) (g : N)
   let k := length ca in
   let ta := new_adm sid_a 9%N (mk_chain 0 ca) in
   let tb := new_adm sid_b 10%N (mk_chain 0 cb) in
-  let st1 := run (repeat (0%nat, false) (N.to_nat g)) (background, [ta; tb]) in
-  let st2 := run (repeat (1%nat, false) (k + 9) ++ [(1%nat, true)]) st1 in
-  let st3 := run (repeat (0%nat, false) (k + 9) ++ [(0%nat, true)]) st2 in
+  let st1 := run (repeat (0%nat, WMain) (N.to_nat g)) (background, [ta; tb]) in
+  let st2 := run (repeat (1%nat, WMain) (k + 10) ++ [(1%nat, WHandler)]) st1 in
+  let st3 := run (repeat (0%nat, WMain) (k + 10) ++ [(0%nat, WHandler)]) st2 in
   let ticks := [(1%N, fst st1); (2%N, fst st2); (3%N, fst st3)] in
   ((resp_code sid_a (fst st3), resp_code sid_b (fst st3)),
    (tick_hits sid_a ticks, tick_hits sid_b ticks),
